@@ -1,4 +1,6 @@
 """C05 - operations on quantized tensors equal the operations on dequantized values (structural clauses)."""
+import ast
+
 from .. import handrules
 from ..core import AnalysisError
 from ..registries import handlers, register_functions
@@ -18,6 +20,7 @@ RULES = {
     "C05.R10": "re-quantizing handlers compute on dequantized values and re-quantize with the operand qtype and documented scale",
     "C05.R12": "scale positivity: a handler that rescales by a scalar preserves the sign of the scale whenever another handler works on raw payloads assuming a positive scale",
     "C05.R13": "guard helpers mean what the rules assume: is_scalar = python number or plain 0-dim tensor; cannot_mm = grouped payload",
+    "C05.R16": "in-place variants: a handler registered for an in-place aten op (trailing underscore) updates and returns its first operand on every path (a handler that returns a fresh tensor leaves the operand and its aliases unchanged)",
     "C05.R15": "contractions: the default kernel behind mm/bmm/linear multiplies raw codes in float32 for every 8-bit operand pair with half-precision scales (error stays within one float accumulation, no intermediate overflow)",
     "C05.R14": "contractions (mm/bmm handlers): the raw-code route is well-typed for every combination of per-tensor / per-axis operands that reaches it: each scale lines up with a kept dimension of the output and is applied exactly once",
     "C05.R11": "rank beliefs (fixed-size unpacking of size()) are implied by the aten schema or an ndim guard",
@@ -79,6 +82,24 @@ def run(chk):
     handrules.emit(chk, recs, "C05")
     from . import c07
     c07.mm_handlers(chk, r1="C05.R14", r2="C05.R14", r5="C05.R14")
+    # in-place variants
+    from ..core import paths_of, positional_params as _pp
+    n_ip = 0
+    for table in ("qbytes", "qbits"):
+        for h in hs[table]:
+            ip = [o for o in h.ops if o.split(".")[1].endswith("_")]
+            if not ip:
+                continue
+            n_ip += 1
+            opn, first = _pp(h.fn)[0], _pp(h.fn)[1]
+            for p in paths_of(h.fn):
+                if p.end[0] != "return":
+                    continue
+                e = p.end[1]
+                ok = e is not None and (U(e) == first or (isinstance(e, ast.Call) and isinstance(e.func, ast.Name) and e.func.id == opn and e.args and U(e.args[0]) == first))
+                chk.require("C05.R16", f"{h.mi.rel}:{p.end[2]}", ok, f"{h.name} (registered for in-place {ip}) returns its first operand `{first}` (`{U(e)[:60] if e is not None else None}`)", h.name, f"in-place {ip} returns a fresh tensor",
+                            f"x.{ip[0].split('.')[1]}(...) on a quantized x: x (and every alias of it) keeps its old value, only the returned tensor is updated")
+    chk.floor("C05.R16", n_ip, 1, "handlers registered for in-place ops")
     try:
         c07.accumulation(chk, {"qbytes_mm": repo.func("qbytes_mm")}, rule="C05.R15")
     except AnalysisError:
